@@ -16,7 +16,7 @@ FUNCTIONS = ['Instance::parse_transaction', 'Instance::parse_input_transaction',
 ASSUMPTIONS = ['hash compression functions uninterpreted on symbolic input', 'allocation never fails; diagnostics discarded', 'the per-step execution of the configured scripts is decided by C01/C02/C05, the script switches by C04/C10: this check decides the set-up they start from',
                'tx structure (counts, lengths) concrete per shape; every payload byte, amount, sequence, prevout symbolic']
 OUTSIDE = ['more than 2 inputs / 2 outputs', 'witness items longer than 33 bytes except the 64/65-byte Schnorr signature', 'control blocks with more than 1 path node (C05 covers the fold)']
-BOUNDS = 'selection: 1-2 inputs, prevout hashes symbolic, --select in {-1,0,1,2}; set-up: 9 spend shapes x {hash matches, hash differs (both explored symbolically)}; control block sizes 32,33,34,65,33+32*128,33+32*129; annex present/absent'
+BOUNDS = 'selection: 1-2 inputs, prevout hashes symbolic, --select in {-1,0,1,2}; set-up: 9 spend shapes x {hash matches, hash differs (both explored symbolically)}; control block sizes 0,1,2,31,32,33,34,64,65,66,33+32*128,33+32*129 (thorough: every size 0..99 and the sizes around 33+32*128); annex present/absent'
 
 def setup(E):
     stubs.install_all(E)
@@ -43,13 +43,13 @@ def ser_tx(ver, ins, outs, lock):
 
 KINDS = ['legacy-p2pkh', 'legacy-bare', 'p2wpkh', 'p2wpkh-1item', 'p2wpkh-3items', 'p2wsh', 'p2sh-p2wpkh', 'p2sh-p2wsh', 'p2tr-key', 'p2tr-key-annex', 'p2tr-script-m0', 'p2tr-script-m1', 'p2tr-script-annex', 'p2tr-script-leafver',
          'witness-program-empty-witness']
-CTRL_SIZES = [32, 33, 34, 65, 33 + 32 * 128, 33 + 32 * 129]
+CTRL_SIZES = [0, 1, 2, 31, 32, 33, 34, 64, 65, 66, 33 + 32 * 128, 33 + 32 * 129]
 
 def obligations(tier, seed):
     obs = []
     for k in KINDS:
         for second in (0, 1): obs.append(dict(name='setup/%s/in%d' % (k, second), kind='setup', t=k, idx=second))
-    for cs in CTRL_SIZES: obs.append(dict(name='setup/control-size/%d' % cs, kind='setup', t='p2tr-script-ctrl', idx=0, csize=cs))
+    for cs in (CTRL_SIZES if tier == 'quick' else sorted(set(list(range(0, 100)) + [33 + 32 * 127, 33 + 32 * 128 - 1, 33 + 32 * 128 + 1] + CTRL_SIZES))): obs.append(dict(name='setup/control-size/%d' % cs, kind='setup', t='p2tr-script-ctrl', idx=0, csize=cs))
     for nin in (1, 2):
         for sel in (-1, 0, 1, 2): obs.append(dict(name='select/nin%d/select%d' % (nin, sel), kind='select', nin=nin, sel=sel))
     return obs
